@@ -56,6 +56,10 @@ func (s *scanner) Scan(value bytes.Bytes) (*Number, error) {
 		return nil, err
 	}
 
+	if n.nat.Len() == 0 {
+		n.neg = false // zero has no sign: -0, -0.0 are equal to 0
+	}
+
 	return &n, nil
 }
 
